@@ -52,9 +52,19 @@ func retryTemplate(t *Tape) *Prog {
 		gen = &GenSpec{K: "slicen", A: a, B: a + t.Int("rt.span", 0, 3), Sub: elem}
 	}
 	p.Body = []*Stmt{{K: SDraw, Var: 0, Gen: gen, Label: "v"}}
+	inCleanup := c.Max%3 == 0
+	if inCleanup {
+		// the value is drawn by a cleanup function of the property (no tape draw decides this: existing tapes decode as before)
+		p.Body = []*Stmt{{K: SCleanup, ID: 0, Body: p.Body}}
+	}
 	if t.Chance("rt.tail", 50) {
-		p.Body = append(p.Body, &Stmt{K: SDraw, Var: 3, Gen: &GenSpec{K: "uint8"}, Label: "w"},
-			&Stmt{K: SIf, Cond: &Cond{Var: 3, F: 0, Op: OpGE, C: int64(t.Int("rt.tailthr", 0, 200))}, Body: []*Stmt{{K: SFail, FKind: FKFatal, Site: 1}}})
+		tail := []*Stmt{{K: SDraw, Var: 3, Gen: &GenSpec{K: "uint8"}, Label: "w"},
+			{K: SIf, Cond: &Cond{Var: 3, F: 0, Op: OpGE, C: int64(t.Int("rt.tailthr", 0, 200))}, Body: []*Stmt{{K: SFail, FKind: FKFatal, Site: 1}}}}
+		if inCleanup {
+			// one failure per test case: a second one raised while the first unwinds would make "the" failure ambiguous
+			tail = tail[:1]
+		}
+		p.Body = append(p.Body, tail...)
 	}
 	return p
 }
